@@ -32,24 +32,53 @@ MaxGen(doc) == FoldLeft(LAMBDA acc, r : FoldLeft(LAMBDA a2, o : IF o.gen > a2 TH
 
 Init ==
     /\ di \in 1..Len(Docs)
-    /\ \E order \in {"asc", "desc"}, xref \in {"table1", "tableN", "stream1", "streamN"}, w \in WChoices,
-          junk \in JunkChoices, bin \in BOOLEAN, slack \in {0, 2}, noindex \in BOOLEAN :
-          LET doc == FileDoc(Docs[di])
-              k == [order |-> order, xref |-> xref, w |-> w, junk |-> Len(junk), junkbytes |-> junk, bin |-> bin,
-                    slack |-> slack, noindex |-> noindex]
-          IN \* generation numbers must fit field 3 of the chosen W
-             /\ (w[3] = 0 => MaxGen(doc) = 0) /\ (w[3] = 1 => MaxGen(doc) <= 255)
-             /\ (w[1] = 0 => xref # "stream1")
-             /\ ((w[1] = 0 \/ w[3] = 0) => \A r \in 1..Len(doc.revs) : doc.revs[r].comp = <<>>)   \* type-2 entries need fields 1 and 3
-             /\ (xref \in {"table1", "tableN"} => w = <<1, 2, 1>> /\ ~noindex)       \* W irrelevant for tables
-             /\ (Len(doc.revs) > 1 => xref \in {"tableN", "streamN"})             \* updates list only what changed
-             /\ plan = InitPlan(doc, k)
-             /\ todo = FilePlan(doc, k)
+    /\ plan = [none |-> TRUE] /\ todo = <<[w |-> "plan", next |-> "xref"]>>
     /\ out = <<>> /\ offs = EmptyMap /\ outer = <<>> /\ moffs = <<>> /\ fin = FALSE
+
+\* The structural knobs are chosen one small step at a time (a single step choosing all of them would make
+\* TLC enumerate their whole product as successors).  plan.k grows until PlanDone lays the file out.
+PlanStep(name) == todo # <<>> /\ todo[1].w = "plan" /\ todo[1].next = name
+PlanNext(name) == todo' = <<[w |-> "plan", next |-> name]>>
+TheDoc == FileDoc(Docs[di])
+HasComp(doc) == \E r \in 1..Len(doc.revs) : doc.revs[r].comp # <<>>
+
+PlanXref ==
+    /\ PlanStep("xref")
+    /\ \E xref \in {"table1", "tableN", "stream1", "streamN"}, order \in {"asc", "desc"} :
+          /\ (Len(TheDoc.revs) > 1 => xref \in {"tableN", "streamN"})          \* updates list only what changed
+          /\ plan' = [k |-> [xref |-> xref, order |-> order]]
+    /\ PlanNext("w") /\ UNCHANGED <<out, offs, outer, moffs>>
+
+PlanW ==
+    /\ PlanStep("w")
+    /\ \E w \in WChoices, noindex \in BOOLEAN :
+          /\ (w[3] = 0 => MaxGen(TheDoc) = 0) /\ (w[3] = 1 => MaxGen(TheDoc) <= 255)   \* generations must fit field 3
+          /\ (w[1] = 0 => plan.k.xref # "stream1")
+          /\ ((w[1] = 0 \/ w[3] = 0) => ~HasComp(TheDoc))                                \* type-2 entries need fields 1 and 3
+          /\ (plan.k.xref \in {"table1", "tableN"} => w = <<1, 2, 1>> /\ ~noindex)      \* irrelevant for tables
+          /\ plan' = [k |-> plan.k @@ [w |-> w, noindex |-> noindex]]
+    /\ PlanNext("misc") /\ UNCHANGED <<out, offs, outer, moffs>>
+
+PlanMisc ==
+    /\ PlanStep("misc")
+    /\ \E junk \in JunkChoices, bin \in BOOLEAN, slack \in {0, 2} :
+          plan' = [k |-> plan.k @@ [junk |-> Len(junk), junkbytes |-> junk, bin |-> bin, slack |-> slack]]
+    /\ PlanNext("filter") /\ UNCHANGED <<out, offs, outer, moffs>>
+
+PlanFilter ==
+    /\ PlanStep("filter")
+    /\ \E sfilter \in {"none", "flate", "pred"}, pngft \in 0..5, zblock \in {7, 65535}, crow \in {1, 5} :
+          /\ (plan.k.xref \in {"table1", "tableN"} => sfilter = "none")
+          /\ (sfilter # "pred" => pngft = 0 /\ crow = 1) /\ (sfilter = "none" => zblock = 7)      \* unused knobs fixed
+          /\ LET k == plan.k @@ [sfilter |-> sfilter, pngft |-> pngft, zblock |-> zblock, crow |-> crow]
+             IN plan' = InitPlan(TheDoc, k) /\ todo' = FilePlan(TheDoc, k)
+    /\ UNCHANGED <<out, offs, outer, moffs>>
+
+Plan == PlanXref \/ PlanW \/ PlanMisc \/ PlanFilter
 
 Finish == todo = <<>> /\ ~fin /\ fin' = TRUE /\ UNCHANGED <<pvars, di>>
 
-Next == (FileNext /\ UNCHANGED <<di, fin>>) \/ Finish
+Next == ((FileNext \/ Plan) /\ UNCHANGED <<di, fin>>) \/ Finish
 
 Spec == Init /\ [][Next]_vars
 
@@ -59,7 +88,7 @@ Done == fin
 \* in cross-reference-stream files additionally the XRef streams and the object-stream containers
 ExpectedVal(v) == IF v.k = "stream" THEN OStream(StreamDictWritten([val |-> v], 0), v.w) ELSE v
 
-BookKeysF == {NameSize, NameType, NameW, NameIndex, NameLength, NamePrev}
+BookKeysF == {NameSize, NameType, NameW, NameIndex, NameLength, NamePrev, NameFilter, NameDecodeParms}
 
 ContainerNums == IF UseComp(K) THEN UNION {{Doc.revs[r].comp[c].cnum : c \in 1..Len(Doc.revs[r].comp)} : r \in 1..Len(Doc.revs)} ELSE {}
 
@@ -80,7 +109,7 @@ RoundTrip ==
 
 EmitInv ==
     (Emit /\ Done) => PrintT(<<"REPLAY", ToJson([doc |-> di, bytes |-> out, xref |-> K.xref, w |-> K.w, order |-> K.order,
-                                                  junk |-> K.junk, bin |-> K.bin, nrevs |-> Len(Doc.revs), cuts |-> plan.cuts,
+                                                  junk |-> K.junk, bin |-> K.bin, sfilter |-> K.sfilter, pngft |-> K.pngft, nrevs |-> Len(Doc.revs), cuts |-> plan.cuts,
                                                   ncomp |-> IF UseComp(K) THEN Cardinality(ContainerNums) ELSE 0,
                                                   redefined |-> Cardinality(Redefined(Doc.revs))])>>)
 =============================================================================
